@@ -1016,7 +1016,9 @@ func (s *SwapService) createTimeoutCallback(swapId string) func() {
 
 		// Reset cancel func
 		if swap != nil && swap.Data != nil {
+			swap.mutex.Lock()
 			swap.Data.toCancel = nil
+			swap.mutex.Unlock()
 		}
 
 		done, err := swap.SendEvent(Event_OnTimeout, nil)
